@@ -7,7 +7,7 @@ import copy
 import itertools
 
 from .. import boot  # noqa: F401
-from labrea.cache import Cache, CacheGetFailure
+from labrea.cache import Cache, CacheGetFailure, MemoryCache
 
 from .. import directed
 from ..build import build
@@ -85,6 +85,35 @@ class FaultyCache(Cache):
             self.store.pop(fp, None)
             return False
         return fp in self.store
+
+
+class FaultyMemoryCache(MemoryCache):
+    """A user backend DERIVED from the library's own MemoryCache (the shortest way to write one): it overrides the three
+    methods to misbehave when the script says so and otherwise inherits the library's implementation."""
+
+    def __init__(self, script):
+        super().__init__()
+        self.script = script
+
+    def get(self, evaluatable, options):
+        a = self.script.next("get")
+        if a in ("miss", "fail-get", "forget"):
+            raise CacheGetFailure(evaluatable, options, self)
+        return super().get(evaluatable, options)
+
+    def set(self, evaluatable, options, value):
+        a = self.script.next("set")
+        if a in ("miss", "forget"):
+            return  # accepts the value and loses it
+        super().set(evaluatable, options, value)
+
+    def exists(self, evaluatable, options):
+        a = self.script.next("exists")
+        if a == "lie-exists":
+            return True
+        if a in ("miss", "forget"):
+            return False
+        return super().exists(evaluatable, options)
 
 
 class Runaway(BaseException):
@@ -192,7 +221,7 @@ HISTORIES = [
 
 def run_script(ctx, gname, program, history, actions, own_exists):
     script = Script(actions)
-    G = build(program, cache_factory=lambda kind: FaultyCache(script, own_exists))
+    G = build(program, cache_factory=lambda kind: FaultyMemoryCache(script) if own_exists == "derived" else FaultyCache(script, own_exists))
     clean = build(program)
     evals = {}
     W = {"graph": gname, "script": list(actions), "own_exists": own_exists, "history": history}
@@ -234,7 +263,7 @@ def run(ctx):
         for h, hist in enumerate(HISTORIES):
             if (h == 2) != (gname == "overload") or (h == 3) != (gname in FAILING):
                 continue
-            for own in (False, True):
+            for own in (False, True) + (("derived",) if gname in ("single", "chain") else ()):
                 jobs.append((gname, program, hist, own))
     k = 0
     for gname, program, hist, own in jobs:
@@ -261,7 +290,7 @@ def run(ctx):
         gname = r.choice(list(GRAPHS))
         hist = HISTORIES[2] if gname == "overload" else HISTORIES[3] if gname in FAILING else r.choice(HISTORIES[:2])
         actions = [r.choice(ACTIONS) if r.random() < 0.5 else "behave" for _ in range(r.choice([8, 16, 40]))]
-        run_script(ctx, gname, GRAPHS[gname], hist, actions, r.random() < 0.5)
+        run_script(ctx, gname, GRAPHS[gname], hist, actions, r.choice([True, False, "derived"]))
 
 
 def replay(ctx, rep):
